@@ -297,6 +297,15 @@ impl Scenario for C14 {
                     6 | 7 => members.push(format!("\"{name}\":null")),
                     8 => members.push(format!("\"{name}\":{}", b.rng.below(2_000_000_000))),
                     9 => members.push(format!("\"{name}\":\"not a timestamp\"")),
+                    10 | 11 => {
+                        // duplicate timestamp member: value/null in either order, or two values
+                        let (t1, t2) = (b.timestamp(), b.timestamp());
+                        let (s1, s2) = (rfc3339(&mut b, t1.0), rfc3339(&mut b, t2.0));
+                        let first = if b.rng.chance(1, 3) { "null".to_string() } else { format!("\"{s1}\"") };
+                        let second = if b.rng.chance(1, 2) { "null".to_string() } else { format!("\"{s2}\"") };
+                        members.push(format!("\"{name}\":{first}"));
+                        members.push(format!("\"{name}\":{second}"));
+                    }
                     _ => {
                         let t = b.timestamp();
                         let s = rfc3339(&mut b, t.0);
